@@ -17,6 +17,17 @@ def run(ctx):
         for i, tree in enumerate(extra[:20]):
             tree = coregen.assign_spans(tree, "main.ms")
             projs.append({"name": "skeleton3-%d" % i, "files": {"main.ms": coregen.render_ms(tree)}, "entry": "main.ms", "tree": tree, "kind": "skeleton"})
+    # operator precedence / associativity / prefix operators: every ordered pair of operators, both tree shapes,
+    # written with only the parentheses the precedence table requires
+    n_prec = 0
+    coregen.MINIMAL_PARENS = True
+    try:
+        for i, tree in enumerate(coregen.precedence_programs()):
+            tree = coregen.assign_spans([coregen.Gen.norm_s(s) for s in tree], "main.ms")
+            projs.append({"name": "precedence%d" % i, "files": {"main.ms": coregen.render_ms(tree)}, "entry": "main.ms", "tree": tree, "kind": "skeleton"})
+            n_prec += 1
+    finally:
+        coregen.MINIMAL_PARENS = False
     projs += coretie.gen_programs(ctx, 220 if ctx.quick() else 4000, max_depth=3)
     projs += coretie.gen_programs(ctx, 40 if ctx.quick() else 800, max_depth=5, expr_depth=2)
     results = coretie.tie_all(ctx, binary, projs, "c01")
@@ -31,6 +42,7 @@ def run(ctx):
                        "+ random well-typed Core programs (depth <= 3 and <= 5); non-trivial = distinct program whose real run executes > 30 instructions" % depth)
     ctx.cov["exhaustive"] = True
     ctx.cov["skeleton_programs"] = n_skel
+    ctx.cov["precedence_programs"] = n_prec
     ctx.cov["statistics"] = st
     ctx.cov["traces_validated_against_impl"] = st["t2_agree"]
     ctx.sample({"program": projs[n_skel + 1]["files"]["main.ms"][:800]})
